@@ -26,7 +26,7 @@ CMAKE_OPTS = [
 DBUS_TARGETS = ["dbus-1", "dbus-internal", "dbus-daemon-internal", "launch-helper-internal"]
 
 ENGINE_SRCS = ["grammar.cc", "wire.cc", "stats.cc"]
-OPTIONAL_ENGINE_SRCS = ["gen.cc", "sha1.cc", "busmodel.cc", "inproc_bus.cc", "bushelp.cc", "rawpeer.cc", "libwalk.cc", "matchmodel.cc", "policymodel.cc"]
+OPTIONAL_ENGINE_SRCS = ["gen.cc", "sha1.cc", "busmodel.cc", "inproc_bus.cc", "bushelp.cc", "rawpeer.cc", "libwalk.cc", "matchmodel.cc", "policymodel.cc", "enumdrv.cc"]
 
 CXX = "clang++"
 CXXFLAGS = ("-std=gnu++17 -g -O1 -fno-omit-frame-pointer -fsanitize=address,undefined -fno-sanitize-recover=undefined "
